@@ -593,7 +593,10 @@ impl<const B: Word> Repr<B> {
         debug_assert!(self.significand.bit_len() <= 24);
 
         let sign = self.sign();
-        let top_bit = self.exponent + self.significand.bit_len() as isize;
+        // saturating: an exponent next to isize::MAX must compare as "too large", not wrap around
+        let top_bit = self
+            .exponent
+            .saturating_add(self.significand.bit_len() as isize);
         let man24: i32 = self.significand.try_into().unwrap();
         if top_bit > 128 {
             // max f32 = 2^128 * (1 - 2^-24)
@@ -652,7 +655,10 @@ impl<const B: Word> Repr<B> {
         debug_assert!(self.significand.bit_len() <= 53);
 
         let sign = self.sign();
-        let top_bit = self.exponent + self.significand.bit_len() as isize;
+        // saturating: an exponent next to isize::MAX must compare as "too large", not wrap around
+        let top_bit = self
+            .exponent
+            .saturating_add(self.significand.bit_len() as isize);
         let man53: i64 = self.significand.try_into().unwrap();
         if top_bit > 1024 {
             // max f64 = 2^1024 × (1 − 2^−53)
